@@ -320,6 +320,43 @@ func runC07(c *Ctx) {
 		}
 	}
 	r.Extra("config_calls_in_entry_points", nc)
+	// delegate-result: the tree an entry point returns is the tree the parser gave it. An entry point that fills in or
+	// rewrites a field of the result (attaching comments, positions, defaults) returns a tree its siblings do not.
+	r.Rule("delegate-result", "a delegating entry point does not store into the *ast.AST it obtained from the parser (or from another entry point) before returning it: results differ between entry points otherwise")
+	nr := 0
+	for _, fn := range entries {
+		seq := 0
+		for _, b := range fn.Blocks {
+			for _, in := range b.Instrs {
+				st, ok := in.(*ssa.Store)
+				if !ok {
+					continue
+				}
+				fa, ok := st.Addr.(*ssa.FieldAddr)
+				if !ok {
+					continue
+				}
+				nt := core.NamedOf(core.Deref(fa.X.Type()))
+				if nt == nil || nt.Obj().Name() != "AST" || nt.Obj().Pkg() == nil || nt.Obj().Pkg().Name() != "ast" {
+					continue
+				}
+				// the object comes from a call (the parser's result), possibly through a tuple
+				v := fa.X
+				if ex, ok := v.(*ssa.Extract); ok {
+					v = ex.Tuple
+				}
+				if _, fromCall := v.(*ssa.Call); !fromCall {
+					continue
+				}
+				nr++
+				seq++
+				r.Violate("delegate-result", core.FnName(fn)+sprintf("|%s#%d", core.FieldName(fa.X.Type(), fa.Field), seq), p.Pos(st.Pos()), "the entry point writes "+core.FieldName(fa.X.Type(), fa.Field)+" of the tree it got from "+calleeName(v.(*ssa.Call))+" before returning it: other entry points return the parser's tree as it is, so the results for the same input differ")
+			}
+		}
+	}
+	if nr == 0 {
+		r.OK("delegate-result", "scan", "-", sprintf("%d delegating entry points return the parser's tree unmodified", len(entries)))
+	}
 }
 
 // paramIsTokenized: the parameter (or a conversion of it) is handed to the tokenizer or to another entry point as text.
